@@ -49,8 +49,20 @@ func main() {
 	mc["history_rereads_after_reupload_not_touching_reader|timing"] = 8
 	mc["history_rereads_after_reupload_not_touching_reader|emu"] = 40
 	mc["history_magic_copy_only_runs"] = 6
+	mc["geom_launches_2d"] = 60
+	mc["geom_launches_3d"] = 30
+	mc["geom_launches_with_partial_work_groups"] = 40
+	mc["geom_unified_launches|emu"] = 80
+	mc["geom_unified_launches|timing"] = 8
+	mc["geom_unified_launches_with_fewer_wg_rows_than_members|emu"] = 25
+	mc["geom_unified_launches_with_fewer_wg_rows_than_members|timing"] = 4
+	mc["geom_unified_launches_with_a_share_wrapping_a_row_end|emu"] = 10
+	mc["geom_unified_launches_with_a_share_wrapping_a_row_end|timing"] = 3
+	mc["geom_host_split_launches|emu"] = 60
+	mc["geom_host_split_launches|timing"] = 6
 	c.Finish(vlib.FinishOpts{
-		Rule: "history case (e2e-history) = (multi-phase host program over 2-3 buffers drawn from {upload of a whole buffer / page-aligned sub-range / arbitrary sub-range, kernel at an abstract launch site: element-wise in place | dst[i] = op(src[window(i)], c) between two buffers | the driver's device-to-device copy kernel, read-back of an intermediate result, re-upload of data kernels have read, further kernels}, every step drained before the next; placement: 1 GPU | everything on GPU 2 of 2 | buffers allocated on / remapped to another GPU than the launching one | buffers distributed page-wise with launches from several GPUs, queues created up front and one code object shared by all GPUs | single pages remapped over 4 GPUs | unified device over 2/4 GPUs; emulation, r9nano timing with DMA copies, r9nano timing with magic copy (copy-only programs)); every read-back compared bit-exactly with a flat program-order shadow (hence equal between placements); a differing element is classified by the step whose effect is missing (stale-after-reupload, stale-after-kernel-write, kernel-write-not-visible, upload-not-visible, wrong-value); programs never let a kernel read data another kernel wrote without a host copy in between (open finding stale-l1-across-kernels); non-trivial = multi-GPU run of a program with >= 2 kernels and a re-upload after a kernel in which some kernel read pages of another GPU; the counter history_rereads_after_reupload_not_touching_reader counts kernels that re-read, on a GPU owning none of the re-uploaded pages, lines that GPU had read before the re-upload with no other copy touching that GPU's pages in between. " +
+		Rule: "launch geometry (both end-to-end layers): read-modify-write kernel buf[i] = op(buf[i], c), i = gx + gy*pitchX + gz*pitchXY computed from the work-group and work-item ids, launched with 1-D / 2-D / 3-D grids (work-group shapes 64x1 .. 2x2x2; 1, 2, 3, 5 or many work-group rows; row lengths small / multiples of 64 / just above multiples of 64 / arbitrary; partial last work-groups in every dimension) on unified devices of 2, 3 and 4 members (also GPUs 2-3 of 4 and members in the order 4-2-1) and on plain 2/3/4-GPU platforms where the host splits the grid into slabs of work-groups; every element is owned by exactly one work-item, so a work-group that never ran or ran twice changes the final data (classes element-not-processed / element-processed-twice); counters geom_unified_launches_with_fewer_wg_rows_than_members and ..._with_a_share_wrapping_a_row_end (a member's share of flattened work-group ids is shorter than one row of work-groups and crosses a row end) have minimums. " +
+			"history case (e2e-history) = (multi-phase host program over 2-3 buffers drawn from {upload of a whole buffer / page-aligned sub-range / arbitrary sub-range, kernel at an abstract launch site: element-wise in place | dst[i] = op(src[window(i)], c) between two buffers | the driver's device-to-device copy kernel, read-back of an intermediate result, re-upload of data kernels have read, further kernels}, every step drained before the next; placement: 1 GPU | everything on GPU 2 of 2 | buffers allocated on / remapped to another GPU than the launching one | buffers distributed page-wise with launches from several GPUs, queues created up front and one code object shared by all GPUs | single pages remapped over 4 GPUs | unified device over 2/4 GPUs; emulation, r9nano timing with DMA copies, r9nano timing with magic copy (copy-only programs)); every read-back compared bit-exactly with a flat program-order shadow (hence equal between placements); a differing element is classified by the step whose effect is missing (stale-after-reupload, stale-after-kernel-write, kernel-write-not-visible, upload-not-visible, wrong-value); programs never let a kernel read data another kernel wrote without a host copy in between (open finding stale-l1-across-kernels); non-trivial = multi-GPU run of a program with >= 2 kernels and a re-upload after a kernel in which some kernel read pages of another GPU; the counter history_rereads_after_reupload_not_touching_reader counts kernels that re-read, on a GPU owning none of the re-uploaded pages, lines that GPU had read before the re-upload with no other copy touching that GPU's pages in between. " +
 			"end-to-end case = (integer program: H2D, 1-3 element-wise kernels over a grid of any size incl. a partial last work-group, device-to-device copy of an arbitrary byte count, D2H; placement: 1 GPU | unified device over 2/4 GPUs | plain 2/4 GPUs with both buffers distributed page-wise; emulation or r9nano timing); compared bit-exactly with the single-GPU run and a host reference; non-trivial = multi-GPU placement of a program whose grid has a partial last work-group or whose work-group count is 1 above a multiple of 64. " +
 			"RDMA scenario = (2-4 real rdma.Comp engines on one outside connection, buffer sizes, per-cycle widths, 1-2 L1 requesters and " +
 			"1-2 L2 memories per engine with random latency/reordering/stalls, streams of reads / writes / masked writes to other engines' memory, " +
